@@ -338,7 +338,7 @@ where
             Message::CreateChannelReply(msg) => self.msg_create_channel_reply(msg)?,
             Message::CloseChannelEndReply(msg) => self.msg_close_channel_end_reply(msg)?,
             Message::ChannelEndClosed(msg) => self.msg_channel_end_closed(msg)?,
-            Message::ClaimChannelEndReply(msg) => self.msg_claim_channel_end_reply(msg)?,
+            Message::ClaimChannelEndReply(msg) => self.msg_claim_channel_end_reply(msg).await?,
             Message::ChannelEndClaimed(msg) => self.msg_channel_end_claimed(msg)?,
             Message::ItemReceived(msg) => self.msg_item_received(msg)?,
             Message::AddChannelCapacity(msg) => self.msg_add_channel_capacity(msg)?,
@@ -657,7 +657,7 @@ where
         }
     }
 
-    fn msg_claim_channel_end_reply(
+    async fn msg_claim_channel_end_reply(
         &mut self,
         msg: ClaimChannelEndReply,
     ) -> Result<(), RunError<T::Error>> {
@@ -673,7 +673,11 @@ where
                         .senders
                         .insert(req.cookie, SenderState::Established(send));
                     debug_assert!(dup.is_none());
-                    let _ = req.reply.send(Ok((recv, capacity)));
+
+                    if req.reply.send(Ok((recv, capacity))).is_err() {
+                        self.close_abandoned_channel_end(req.cookie, ChannelEnd::Sender)
+                            .await?;
+                    }
                 }
 
                 ClaimChannelEndResult::ReceiverClaimed => {
@@ -696,7 +700,11 @@ where
                         .receivers
                         .insert(req.cookie, ReceiverState::Established(send));
                     debug_assert!(dup.is_none());
-                    let _ = req.reply.send(Ok((recv, req.capacity)));
+
+                    if req.reply.send(Ok((recv, req.capacity))).is_err() {
+                        self.close_abandoned_channel_end(req.cookie, ChannelEnd::Receiver)
+                            .await?;
+                    }
                 }
 
                 ClaimChannelEndResult::InvalidChannel | ClaimChannelEndResult::AlreadyClaimed => {
@@ -706,6 +714,24 @@ where
         }
 
         Ok(())
+    }
+
+    /// Closes a channel end that was claimed successfully, but whose claim has been abandoned in
+    /// the meantime.
+    async fn close_abandoned_channel_end(
+        &mut self,
+        cookie: ChannelCookie,
+        end: ChannelEnd,
+    ) -> Result<(), RunError<T::Error>> {
+        let (reply, _) = oneshot::channel();
+
+        self.req_close_channel_end(CloseChannelEndRequest {
+            cookie,
+            end,
+            claimed: true,
+            reply,
+        })
+        .await
     }
 
     fn msg_channel_end_claimed(
